@@ -310,8 +310,9 @@ def run_spec(sf, spec, backend, hbar=None, op_cache=None, **backend_options):
     if hbar is not None:
         sf.hbar = hbar
     prog, _ = progs.build(spec, op_cache=op_cache)
+    modes = backend_options.pop("modes", None)
     eng = sf.Engine(backend, backend_options=backend_options)
-    res = eng.run(prog)
+    res = eng.run(prog) if modes is None else eng.run(prog, modes=list(modes))
     return res.state, eng
 
 
